@@ -54,7 +54,7 @@ def grid_float(lo, hi, q=0.01):
 
 
 @st.composite
-def lab_spec(draw, name, *, kind=None, max_rows=8, max_cols=6, regime="roomy", grid=True, q=0.01, min_zero=None, allow_names=True, pos=None, filled=None, legacy=None):
+def lab_spec(draw, name, *, kind=None, max_rows=8, max_cols=6, regime="roomy", grid=True, q=0.01, min_zero=None, allow_names=True, pos=None, filled=None, legacy=None, min_cols=1):
     """One labware specification.
 
     regime: "roomy" (limits never interfere), "tight" (limits of the order of the transferred volumes, 20-400 uL),
@@ -69,7 +69,7 @@ def lab_spec(draw, name, *, kind=None, max_rows=8, max_cols=6, regime="roomy", g
         cols = draw(st.integers(1, min(4, max_cols) if small else max_cols))
     else:
         rows = draw(st.integers(1, min(4, max_rows) if small else max_rows))  # virtual rows
-        cols = draw(st.integers(1, min(3, max_cols) if small else max_cols))
+        cols = draw(st.integers(min_cols, max(min_cols, min(3, max_cols) if small else max_cols)))
     num = (lambda lo, hi: grid_float(lo, hi, q)) if grid else (lambda lo, hi: st.floats(lo, hi, allow_nan=False, allow_infinity=False))
     if regime == "roomy":
         vmax = draw(st.sampled_from([1e5, 5e4, 250000.0]))
